@@ -245,6 +245,17 @@ theorem C17_opnorm_converges (B : E →L[ℝ] E) (A : E →L[ℝ] F) (hG : IsGra
     rw [hc, hnorm]
     exact (Real.continuous_sqrt.tendsto lam1).comp ht
 
+/-- **What `ord = 2` and `ord = -2` mean** (`MatrixOperator.norm`, `Diagonal.norm`): with `lam` the eigenvalues of the Gram
+    operator `AᴴA` in an orthonormal eigenbasis (squared singular values of `A`), the largest singular value
+    `√(max lam)` is the induced 2-norm `‖A‖` (= `sup ‖Ax‖/‖x‖`, what `operator_norm` estimates), and the smallest one
+    `√(min lam)` is `inf ‖Ax‖/‖x‖`, attained at its eigenvector.  (The computation of the spectrum — the SVD behind
+    `jnp.linalg.norm(A, ±2)` — remains a contract.) -/
+theorem C17_sigma_max_min (B : E →L[ℝ] E) (A : E →L[ℝ] F) (hG : IsGram B A) (b : OrthonormalBasis ι ℝ E)
+    (lam : ι → ℝ) (hB : IsDiagIn B b lam) (imax imin : ι) (hmax : ∀ i, lam i ≤ lam imax) (hmin : ∀ i, lam imin ≤ lam i) :
+    ‖A‖ = Real.sqrt (lam imax) ∧
+    (∀ x : E, Real.sqrt (lam imin) * ‖x‖ ≤ ‖A x‖) ∧ ‖A (b imin)‖ = Real.sqrt (lam imin) * ‖b imin‖ :=
+  ⟨hG.opNorm_eq_sqrt hB imax hmax, hG.sigma_min hB imin hmin⟩
+
 /-- a Gram operator is symmetric -/
 theorem C17_gram_symmetric (B : E →L[ℝ] E) (A : E →L[ℝ] F) (hG : IsGram B A) :
     (B : E →ₗ[ℝ] E).IsSymmetric := by
